@@ -138,7 +138,8 @@ def module(mod, in_project=True):
         "relative_note": mod.mod_relative_note,
         "x": mod.x, "y": mod.y,
         "layer": mod.layer & U32 if mod.layer is not None else None,
-        "scale": _i(mod.scale),
+        # the COMMON module scale (SSCL); `mod_scale` where the library has it (a controller may be called `scale`)
+        "scale": _i(getattr(mod, "mod_scale", None) if hasattr(mod, "mod_scale") else mod.scale),
         "visualization": int(mod.visualization),
         "color": list(mod.color),
         "midi_in_always": bool(mod.midi_in_always),
